@@ -380,13 +380,56 @@ def stateless(R, B, rng):
         R.check(c1.hash == c2.hash, 'vmstack-serialize-twice-differs', 'serialising the same stack twice gives different cells')
 
 
+def order_independence(R):
+    """the probe set of checks/probes_c08.py (528 deterministic calls, many near-duplicates of each other) evaluated in fresh interpreters in several orders:
+    every probe must give the same result whatever was called before it"""
+    import json
+    import os
+    import subprocess
+    import sys
+    orders = ['forward', 'reverse', 'interleave', f'shuffle:{R.seed}', f'shuffle:{R.seed + 1}']
+    env = dict(os.environ, PYTHONHASHSEED='0', PYTHONDONTWRITEBYTECODE='1', VERIF_REPO=mon.REPO)
+    procs = [(o, subprocess.Popen([sys.executable, '-m', 'checks.probes_c08', o], cwd=mon.VERIF_DIR, env=env, stdout=subprocess.PIPE, stderr=subprocess.PIPE, text=True)) for o in orders]
+    results = {}
+    for o, p in procs:
+        try:
+            out, err = p.communicate(timeout=600)
+        except subprocess.TimeoutExpired:
+            p.kill()
+            R.inconc(f'probe-run-{o}-watchdog')
+            continue
+        if p.returncode != 0:
+            R.inconc(f'probe-run-{o.split(":")[0]}-died')
+            sys.stderr.write(err[-1500:])
+            continue
+        results[o] = json.loads(out)
+    if 'forward' not in results:
+        return
+    base = results['forward']
+    R.count('probes', len(base))
+    raised = [k for k, v in base.items() if v.startswith('raised:')]
+    for k in raised[:5]:
+        R.violation(f'probe-raises-{k.split("/")[0]}', f'probe {k} (a valid deterministic library call) raised: {base[k]}', {'probe': k})
+    for o, res in results.items():
+        if o == 'forward':
+            continue
+        R.count('probe_orders_compared')
+        for k, v in base.items():
+            R.counters['oracle_evaluations'] += 1
+            if res.get(k) != v:
+                R.violation(f'result-depends-on-call-order-{k.split("/")[0]}', f'probe {k} gives {v} when the probes run in forward order and {res.get(k)} in order {o.split(":")[0]}: '
+                            'the result of a library call depends on which calls were made before', {'probe': k, 'order': o, 'forward': v, 'other': res.get(k)})
+
+
 def run(R):
     B = bridge.lib()
     rng = R.rng
     quick = R.tier == 'quick'
     R.rule = ('random operation histories (50-400 ops, 15 op kinds incl. mutation attempts on every derived container) over a pool of <= 12 '
               'roots built through 4 routes; after EVERY operation every registered live cell is re-fingerprinted (hash, bits, ref identities, '
-              'mask, depth and, for the first 400, all 6 serialisations); Cell.order postcondition; pure calls re-evaluated later; '
+              'mask, depth and, for the first 400, all 6 serialisations); Cell.order postcondition; pure calls re-evaluated later; a probe set of 528 deterministic '
+              'library calls (near-duplicates of each other across CRC, address, BoC, builder/slice, dictionary, TL, currency, VM stack, signature, ADNL and proof calls) '
+              'evaluated in fresh interpreters in 5 orders must give identical results; '
               'distinct = distinct operation trace; non-trivial = history with at least 10 distinct op kinds')
     R.assumptions = ['mutating cell.bits / cell.refs of the cell object itself (public attributes) is outside the property: only derived objects are attacked']
     nh = (25 if quick else 1500) // R.nshards + 1
@@ -398,6 +441,10 @@ def run(R):
         R.case(mon.fp(tuple(trace)) if len(set(trace)) >= 10 else None, sample={'trace_head': trace[:25]} if i == 0 else None)
         R.count('histories')
     stateless(R, B, rng)
+    if R.shard == 0:
+        order_independence(R)
+        R.floor('probes', 400)
+        R.floor('probe_orders_compared', 3)
     R.floor('registry_validations', 500)
     R.floor('dict_parse_sequences', 50)
     R.floor('to_boc_argument_sequences', 10)
